@@ -161,7 +161,7 @@ class Ctx:
             self._build(prop_modules, clean)
             if self.lean["build_ok"]:
                 self._audit(prop_modules)
-        self._scan_forbidden()
+        self._scan_forbidden(prop_modules)
         self.checker_cmd = (
             "cd lean && lake build "
             + " ".join(f"DmrVerif.Props.{m}" for m in prop_modules)
@@ -267,17 +267,35 @@ class Ctx:
                 else:
                     self.lean["discharged"].append(t)
 
-    def _scan_forbidden(self):
+    def _import_closure(self, prop_modules):
+        """source files the property's theorems and driver transitively import (within lean/)"""
+        todo = [os.path.join("DmrVerif", "Props", f"{m}.lean") for m in prop_modules]
+        todo.append(os.path.join("Drv", f"{self.prop}.lean"))
+        seen = []
+        while todo:
+            rel = todo.pop()
+            if rel in seen:
+                continue
+            path = os.path.join(LEAN, rel)
+            if not os.path.exists(path):
+                continue
+            seen.append(rel)
+            for line in open(path, encoding="utf-8"):
+                m = re.match(r"\s*(?:public\s+)?import\s+((?:DmrVerif|Drv)\.[\w.]+)", line)
+                if m:
+                    todo.append(m.group(1).replace(".", os.sep) + ".lean")
+        return sorted(seen)
+
+    def _scan_forbidden(self, prop_modules=None):
         hits = []
-        for root, _, files in os.walk(os.path.join(LEAN, "DmrVerif")):
-            for fn in files:
-                if not fn.endswith(".lean"):
-                    continue
-                p = os.path.join(root, fn)
-                src = strip_lean_comments(open(p, encoding="utf-8").read())
-                for i, line in enumerate(src.splitlines(), 1):
-                    if FORBIDDEN.search(line):
-                        hits.append(f"{os.path.relpath(p, LEAN)}:{i}: {line.strip()[:120]}")
+        files = self._import_closure(prop_modules or [])
+        self.lean["sources"] = files
+        for rel in files:
+            p = os.path.join(LEAN, rel)
+            src = strip_lean_comments(open(p, encoding="utf-8").read())
+            for i, line in enumerate(src.splitlines(), 1):
+                if FORBIDDEN.search(line):
+                    hits.append(f"{rel}:{i}: {line.strip()[:120]}")
         self.lean["forbidden_hits"] = hits
         if hits:
             raise Infra("forbidden tokens in Lean sources: " + "; ".join(hits[:5]))
@@ -459,6 +477,7 @@ def finish(ctx: Ctx, matchers=None, level="proof"):
             "theorems": ctx.lean["obligations"],
             "axioms": ctx.lean["axioms"],
             "generated_tables": ctx.lean["gen"],
+            "lean_sources_scanned": ctx.lean.get("sources", []),
             "lean_build_s": ctx.lean.get("build_s"),
             "leanchecker_rc": ctx.lean.get("leanchecker_rc"),
             "evaluations": ctx.evaluations,
